@@ -37,8 +37,8 @@ func lawSig(src string, mode string, v lexh.LawViolation, toks []lexh.Tok) strin
 		if !utf8.ValidString(src[t.Start:t.End]) {
 			return "span:literal:invalid-utf8"
 		}
-		if token.TokenType(t.Ty) == token.IDENTIFIER && strings.HasPrefix(t.Lit, "\\") &&
-			strings.NewReplacer(" ", "", "\t", "", "\r", "", "\xe3\x80\x80", "").Replace(src[t.Start:t.End]) == t.Lit {
+		if token.TokenType(t.Ty) == token.IDENTIFIER && strings.HasPrefix(t.Lit, "\\") && strings.HasPrefix(src[t.Start:t.End], "\\") {
+			// `\` merged with following name tokens across white space / an HTML part
 			return "span:literal:ns-merge-gap"
 		}
 		return "span:literal:" + kindOf(t)
@@ -77,6 +77,11 @@ func Run(c *vh.Ctx) {
 		cases = []Case{rc}
 	} else {
 		c.Res.Rule = "inputs: every file of the tests/+examples/ corpus in both lexing modes; seeded mutants of corpus files (CRLF, multi-byte and raw bytes, heredocs, interpolation, inline HTML, truncation, deletion, duplication); snippet-built programs and their mutants; all 1- and 2-byte strings over a boundary alphabet. non-trivial = input yields at least 3 top-level tokens; distinct = distinct (mode, input bytes)"
+		// past failures and the replays of the known findings run first
+		for _, pf := range [][2]string{{"s", "#!a\nx"}, {"s", "\\ App"}, {"s", "\\\xe3"}, {"s", "$a;\n// c\r\n$b"}, {"s", "b'a\nb'; $x;"},
+			{"t", "<?php $a;\n// c\r\n$b"}, {"s", "\\class\\use\\Foo::x()"}, {"t", "<?php \\ ?>abc<?php \\x"}, {"s", "<<<X\nabc \"q\" $x"}} {
+			add("past", pf[0], pf[1])
+		}
 		corpus := lexh.Corpus(c.Repo)
 		c.Note("corpus files: %d", len(corpus))
 		for _, in := range corpus {
